@@ -298,19 +298,16 @@ type c09Stats struct {
 }
 
 type c09Session struct {
-	c          *Ctx
-	cs         c09Case
-	s          *Session
-	cfgV       Val
-	spV        Val
-	model      Val // st
-	spec       Val // sstate
-	stats      *c09Stats
-	failed     bool
-	lines      []string // current input lines (a reload alternates between cfg.Lines and cfg.Lines + one more line)
-	usedRQ     bool     // replace-query was sent
-	stale      bool     // a classified inplace-edit-skips-search left a stale list for staleQuery
-	staleQuery string
+	c      *Ctx
+	cs     c09Case
+	s      *Session
+	cfgV   Val
+	spV    Val
+	model  Val // st
+	spec   Val // sstate
+	stats  *c09Stats
+	failed bool
+	lines  []string // current input lines (a reload alternates between cfg.Lines and cfg.Lines + one more line)
 }
 
 const c09ExtraLine = "zz9 reloaded"
@@ -338,16 +335,11 @@ func c09SpecFromModel(m Val) Val {
 func (x *c09Session) itemsIntact(k int, obs *FzfState) bool {
 	for _, m := range obs.Matches {
 		if m.Index < 0 || m.Index >= len(x.lines) || x.lines[m.Index] != m.Text {
-			known := ""
-			if x.usedRQ {
-				known = "replace-query-aliases-item-text"
-			}
 			want := "(no such line)"
 			if m.Index >= 0 && m.Index < len(x.lines) {
 				want = x.lines[m.Index]
 			}
-			x.report("spec", "items_unaltered", k, m, want, known)
-			x.failed = true // the session cannot go on either way
+			x.report("spec", "items_unaltered", k, m, want, "")
 			return false
 		}
 	}
@@ -418,9 +410,6 @@ func (x *c09Session) runStep(k int) bool {
 	case "post":
 		names := []string{}
 		for _, a := range st.Acts {
-			if a.Name == "replace-query" {
-				x.usedRQ = true
-			}
 			names = append(names, c09ActText(a))
 			acts = append(acts, c09ActVals(a)...)
 		}
@@ -507,28 +496,14 @@ func (x *c09Session) runStep(k int) bool {
 			obs, conv = s.WaitFor(func(f *FzfState) bool {
 				return !f.Reading && f.TotalCount == len(x.lines) && eqInts(c09Idx(f.Matches), want)
 			}, 5*time.Second)
-			if conv {
-				x.stale = false
-			}
 			if !conv && obs != nil && !x.itemsIntact(k, obs) {
 				return false
 			}
 			if !conv && obs != nil {
-				// known shape: several actions of one list rewrote the query in place to another one of the
-				// same length (previousInput aliases t.input) -> no search is started
-				known := ""
-				cur := c09ObsOfModel(x.model).Query
-				if st.Kind == "post" && len(st.Acts) >= 2 && obs.Query == cur && cur != prevModel.Query &&
-					len([]rune(cur)) == len([]rune(prevModel.Query)) {
-					known = "inplace-edit-skips-search"
-					x.staleQuery, x.stale = cur, true
-				} else if x.stale && cur == x.staleQuery && cur == prevModel.Query {
-					known = "inplace-edit-skips-search" // still the list of that event: the query has not changed since
-				}
-				x.report("corr", "corr:C09.list_converges", k, c09Idx(obs.Matches), want, known)
-				if known == "" {
-					return false
-				}
+				// the list must become the list of the current query (an in-place same-length rewrite of the query once
+				// started no search: fixed in ba157bc, repro in corpus/C09/02)
+				x.report("corr", "corr:C09.list_converges", k, c09Idx(obs.Matches), want, "")
+				return false
 			}
 		}
 		if obs == nil {
